@@ -1,6 +1,8 @@
 """C18  Saving and loading a GMM or its statistics preserves them exactly."""
 import copy
+import atexit
 import os
+import shutil
 import tempfile
 
 import h5py
@@ -52,8 +54,11 @@ def run(chk):
     r = gen.rng(chk.seed, "C18")
     n_cases = 40 if chk.tier == "quick" else 300
     tmpd = tempfile.mkdtemp(prefix="c18_")
+    atexit.register(shutil.rmtree, tmpd, ignore_errors=True)
     for i in range(n_cases):
         C, D = r.choice([1, 2, 3]), r.choice([1, 2, 3])
+        if i % 8 == 5:
+            C = r.choice([11, 12, 23])          # more than ten components: group names m_gaussians10.. sort before m_gaussians2 in HDF5 name order
         w, mu, var, s = gen.gen_gmm(r, C, D, r.choice(["unit", "mixed"]))
         g = gen.nprng(r)
         thr_kind = r.choice(["default", "scalar", "vector", "matrix", "tiny"])
@@ -173,10 +178,7 @@ def run(chk):
         os.remove(ps)
         if i < 2:
             chk.sample(ctx)
-    try:
-        os.rmdir(tmpd)
-    except OSError:
-        pass
+    shutil.rmtree(tmpd, ignore_errors=True)
     chk.notes["correspondence"] = ("the file layer is tied to the source by the generated key lists (reader/writer/constructor bindings extracted from gmm.py on "
                                    "this run and decided in Coq); histories with save/load are executed against the object model in C17")
     return chk.finish(
